@@ -75,6 +75,8 @@ def lookup(records, key_parts, world=None):
         if all(_identical(x, y) for x, y in zip(rec[0], key_parts)):
             return rec
     for rec in records:
+        if world is not None and world.assume_distinct(rec[0], key_parts):
+            continue
         eqs = []
         for x, y in zip(rec[0], key_parts):
             q = seq_eq(x, y)
@@ -87,8 +89,6 @@ def lookup(records, key_parts, world=None):
         e = all_of(eqs)
         if e is True:
             return rec
-        if world is not None and world.assume_distinct(rec[0], key_parts):
-            continue
         if e is not False:
             cands.append((e, rec))
     if not cands:
@@ -104,8 +104,9 @@ def lookup(records, key_parts, world=None):
 class World:
     """one instance per path"""
 
-    def __init__(self, c, t_ns=None):
+    def __init__(self, c, t_ns=None, concrete=False):
         self.c = c
+        self.concrete = concrete  # outputs of the ideal primitives / RNG are fixed pseudo-random bytes instead of solver symbols
         self.n = 0
         self.kdf_records = {}
         self.concat_records = {}
@@ -117,13 +118,28 @@ class World:
         self.kdf_log = []  # captured constructor arguments (C03)
         self.origin = {}
         self.distinct = set()
+        self.seen_values = set()
 
     def fresh(self, tag, n):
         self.n += 1
+        if self.concrete:
+            import hashlib
+
+            out, i = b"", 0
+            while len(out) < n:
+                out += hashlib.sha256(f"{tag}{self.n}/{i}".encode()).digest()
+                i += 1
+            return out[:n]
         v = self.c.bytes(f"{tag}{self.n}", n)
         if n >= 12 and self.c.symbolic:
             items = V.seq_items(v)
             self.origin[id(items[0])] = (self.n, items)
+        elif n >= 12:
+            if bytes(v) in self.seen_values:
+                from vlib.api import NativeAssumeFailed
+
+                raise NativeAssumeFailed("concrete values violate the no-collision assumption of the ideal primitives")
+            self.seen_values.add(bytes(v))
         return v
 
     def whole_draw(self, seq):
@@ -139,20 +155,13 @@ class World:
         return o[0]
 
     def assume_distinct(self, parts_a, parts_b):
-        """True if some corresponding pair of parts are two different fresh draws (then they are assumed unequal)"""
+        """True if some corresponding pair of parts are two different fresh draws: assumed unequal (ideal primitives / RNG never collide).
+        No constraint is added to the path condition; the native mode checks that the concrete values it runs on respect the assumption."""
         if not self.c.symbolic:
             return False
-        import z3
-
         for x, y in zip(parts_a, parts_b):
             dx, dy = self.whole_draw(x), self.whole_draw(y)
             if dx is not None and dy is not None and dx != dy:
-                key = (min(dx, dy), max(dx, dy))
-                if key not in self.distinct:
-                    self.distinct.add(key)
-                    e = x == y
-                    if isinstance(e, V.SymBool):
-                        self.c.e.add(z3.Not(e.t))
                 return True
         return False
 
@@ -260,3 +269,150 @@ class World:
         if self.t_ns is not None:
             pairs.append((time.time_ns, self.time_ns))
         return pairs
+
+
+# ---------------------------------------------------------------------------------------------- Diffie-Hellman algebra
+
+
+class Algebra:
+    """Group elements are identified by (generator, multiset of exponents); equal identity <=> same value symbols.
+    Nothing else is assumed about the group (no discrete logs, no coincidences).  Both finite-field DH (builtin pow with a
+    modulus) and ECDH (cryptography's ec API) are modelled; the same code runs on concrete values in native mode, where the
+    element values are the ones chosen by the solver for the path (not real modular arithmetic)."""
+
+    CURVE_BITS = {"secp256r1": 256, "secp384r1": 384, "secp521r1": 521}
+    CURVE_ORDER = {
+        "secp256r1": 0xFFFFFFFF00000000FFFFFFFFFFFFFFFFBCE6FAADA7179E84F3B9CAC2FC632551,
+        "secp384r1": 0xFFFFFFFFFFFFFFFFFFFFFFFFFFFFFFFFFFFFFFFFFFFFFFFFC7634D81F4372DDF581A0DB248B0A77AECEC196ACCC52973,
+        "secp521r1": 0x01FFFFFFFFFFFFFFFFFFFFFFFFFFFFFFFFFFFFFFFFFFFFFFFFFFFFFFFFFFFFFFFFFFFA51868783BF2F966B7FCC0148F709A5D03BB5C9B8899C47AEBB6FB71E91386409,
+    }
+
+    def __init__(self, world):
+        self.w, self.c = world, world.c
+        self.ff = []  # finite field elements: dict(mod, gen, exps, value)
+        self.ec = []  # EC elements: dict(curve, gen, exps, x, y)
+        self.n = 0
+        self.log = []
+
+    # -- helpers
+    def _eq(self, a, b):
+        r = a == b
+        return r if isinstance(r, (bool, V.SymBool)) else bool(r)
+
+    def _same_exps(self, e1, e2):
+        if len(e1) != len(e2):
+            return False
+        if len(e1) == 1:
+            return self._eq(e1[0], e2[0])
+        if len(e1) == 2:
+            return any_of([all_of([self._eq(e1[0], e2[0]), self._eq(e1[1], e2[1])]), all_of([self._eq(e1[0], e2[1]), self._eq(e1[1], e2[0])])])
+        raise NotImplementedError("more than two exponents")
+
+    def _fresh_int(self, tag, bits):
+        self.n += 1
+        return self.c.int(f"{tag}{self.n}", 0, (1 << bits) - 1)
+
+    # -- finite field: pow(base, exp, mod)
+    def pow(self, base, exp, mod=None):
+        if mod is None:
+            return base ** exp
+        self.log.append(("pow", base, exp, mod))
+        if truth(self._eq(mod, 0)):
+            raise ValueError("pow() 3rd argument cannot be 0")
+        if truth(exp < 0):
+            raise ValueError("base is not invertible for the given modulus")
+        gen, exps = base, [exp]
+        for r in self.ff:
+            if truth(all_of([self._eq(r["mod"], mod), self._eq(r["value"], base)])):
+                gen, exps = r["gen"], r["exps"] + [exp]
+                break
+        for r in self.ff:
+            if truth(all_of([self._eq(r["mod"], mod), self._eq(r["gen"], gen), self._same_exps(r["exps"], exps)])):
+                return r["value"]
+        bits = mod.bit_length() if isinstance(mod, int) else mod.hi.bit_length()
+        v = self._fresh_int("dh", max(bits, 1))
+        self.c.assume(v < mod)
+        self.ff.append(dict(mod=mod, gen=gen, exps=exps, value=v))
+        return v
+
+    # -- elliptic curves
+    def _ec_element(self, curve, gen, exps):
+        for r in self.ec:
+            if r["curve"] == curve and truth(all_of([self._eq(r["gen"][0], gen[0]), self._eq(r["gen"][1], gen[1]), self._same_exps(r["exps"], exps)])):
+                return r
+        bits = self.CURVE_BITS[curve]
+        r = dict(curve=curve, gen=gen, exps=exps, x=self._fresh_int("ecx", bits), y=self._fresh_int("ecy", bits))
+        self.ec.append(r)
+        return r
+
+    def derive_private_key(self, private_value, curve, backend=None):
+        alg = self
+        name = curve.name
+        if truth(private_value <= 0):
+            raise ValueError("private_value must be a positive integer.")
+        if truth(private_value >= self.CURVE_ORDER[name]):
+            raise ValueError("private_value must be less than the curve order")  # cryptography raises ValueError for scalars outside [1, n-1]
+
+        class Priv:
+            key_size = self.CURVE_BITS[name]
+
+            def public_key(self_):
+                return alg._pub(name, ("G", "G"), [private_value])
+
+            def exchange(self_, algorithm, peer):
+                if peer.curve_name != name:
+                    raise ValueError("peer_public_key and self are not on the same curve")
+                el = alg._ec_element(name, peer.gen, peer.exps + [private_value])
+                nbytes = (self_.key_size + 7) // 8
+                alg.log.append(("exchange", name, peer.exps, private_value))
+                return el["x"].to_bytes(nbytes, "big") if not isinstance(el["x"], int) else el["x"].to_bytes(nbytes, "big")
+
+        return Priv()
+
+    def _pub(self, name, gen, exps):
+        alg = self
+        el = self._ec_element(name, gen, exps)
+
+        class Numbers:
+            x, y = el["x"], el["y"]
+
+        class Pub:
+            curve_name = name
+            key_size = self.CURVE_BITS[name]
+
+            def public_numbers(self_):
+                return Numbers()
+
+        p = Pub()
+        p.gen, p.exps = gen, exps
+        return p
+
+    def public_numbers_factory(self):
+        alg = self
+
+        class EllipticCurvePublicNumbers:
+            def __init__(self_, x, y, curve):
+                self_.x, self_.y, self_.curve = x, y, curve
+
+            def public_key(self_, backend=None):
+                name = self_.curve.name
+                bits = alg.CURVE_BITS[name]
+                if truth(any_of([self_.x < 0, self_.y < 0])):
+                    raise ValueError("Invalid EC key.")
+                for r in alg.ec:
+                    if r["curve"] == name and truth(all_of([alg._eq(r["x"], self_.x), alg._eq(r["y"], self_.y)])):
+                        return alg._pub(name, r["gen"], r["exps"])
+                # a point the algebra has not produced: it is either not on the curve (cryptography raises ValueError) or some unknown group element
+                alg.n += 1
+                if not truth(alg.c.bool(f"on_curve{alg.n}")):
+                    raise ValueError("Invalid EC key.")
+                el = dict(curve=name, gen=(self_.x, self_.y), exps=[1], x=self_.x, y=self_.y)
+                alg.ec.append(el)
+                return alg._pub(name, el["gen"], el["exps"])
+
+        return EllipticCurvePublicNumbers
+
+    def stubs(self):
+        import builtins
+
+        return [(builtins.pow, self.pow), (ec.derive_private_key, self.derive_private_key), (ec.EllipticCurvePublicNumbers, self.public_numbers_factory())]
